@@ -36,7 +36,7 @@ REQUIRED_COUNTERS = {"quick": {"judged:nd": 200, "judged:lganm": 300, "judged:an
                                "shape:n<=2": 150, "anm:var!=1": 300},
                      "thorough": {"judged:nd": 400, "judged:lganm": 600, "judged:anm-pair": 400, "point-mass-columns": 200, "singular-covariances": 100,
                                   "shape:n<=2": 300, "anm:var!=1": 600}}
-N = {"quick": {"n": 40000, "nd": 240, "lganm": 330, "anm": 240, "shape": 180}, "thorough": {"n": 400000, "nd": 480, "lganm": 720, "anm": 480, "shape": 360}}
+N = {"quick": {"n": 40000, "nd": 240, "lganm": 330, "anm": 240, "shape": 180}, "thorough": {"n": 400000, "nd": 1400, "lganm": 2000, "anm": 1400, "shape": 800}}
 
 
 def _iv(rng, p, allow_point=True, anm_safe=False):
